@@ -63,9 +63,11 @@ def gen_cases(tier, seed, shard, nshards):
                    'rcpt_profile': rnd.choice([['perm', 'perm', 'temp', 'ok'], ['perm', 'temp'], ['perm', 'perm', 'ok'],
                                                ['temp', 'temp', 'ok']]),
                    'nreplies': rnd.choice([1, 2, 3]),
+                   # results that say nothing about some recipient: the queue makes up the reply itself
+                   'map_omit_p': rnd.choice([0, 0, 0.4]), 'seq_len_p': rnd.choice([0, 0, 0.3]),
                    'bounce_profile': rnd.choice([['ok'], ['perm', 'temp', 'ok'], ['perm', 'perm'], ['temp', 'temp', 'exc']]),
                    'backoffs': rnd.choice([[None], [0, None], [0, 0, None], [3, None], 'default']),
-                   'rcpts': (12, 20) if big else (1, 5), 'nmsg': rnd.randint(1, 2), 'null_sender_p': 0.15,
+                   'rcpts': (12, 20) if big else (1, 5), 'nmsg': rnd.randint(1, 3), 'null_sender_p': 0.15,
                    'store_pool': rnd.choice([None, None, None, 2]), 'relay_pool': rnd.choice([None, None, None, 2]),
                    'gate_p': rnd.choice([0.0, 0.25]),
                    'bounce_none_p': rnd.choice([0, 0, 0.3]), 'headers_only': rnd.random() < 0.25,
